@@ -1,7 +1,7 @@
 """C17 — immsim roundtrip profile, focus C17 (DESIGN §4 C17)."""
-from engines import immsim
+from engines import immsim, mutsim
 PROPERTY = "C17"
-ENGINE = "gridsim/imm"
+ENGINE = "gridsim/imm + gridsim/mut"
 LEVEL = "exploration"
 COUNTS = {"quick": 900, "thorough": 20000}
 CHUNK = 40
@@ -22,8 +22,13 @@ ASSUMPTIONS = ["per-connection FIFO delivery (TCP)", "PYTHONHASHSEED=0 is part o
 
 
 def generate(seed, tier):
+    # the derivations are observed on the wire of immutable uploads and of mutable creates/writes alike
+    if seed % 2:
+        return mutsim.gen_single(seed, tier, "C17")
     return immsim.gen_roundtrip(seed, tier, "C17")
 
 
 def execute(case):
+    if case.get("engine") == "mutsim":
+        return mutsim.exec_single(case)
     return immsim.exec_roundtrip(case)
